@@ -226,6 +226,7 @@ type world struct {
 	lastC      map[string]chkDef // last local definition of a check (kept after removal)
 	driftDirty bool
 	refused    map[string]bool
+	everRef    map[string]bool // entries whose registration was refused by ACLs at some point
 	suspect    map[string]string
 	tainted    map[string]bool
 	allFaults  []string // kind@class of every fault fired so far
@@ -247,7 +248,7 @@ var wildcard = structs.WildcardEnterpriseMetaInDefaultPartition()
 func newWorld(run *core.Run, sc *scenario, v *variant) *world {
 	w := &world{run: run, sc: sc, v: v, wantS: map[string]svcDef{}, wantC: map[string]chkDef{}, deferred: map[string]bool{},
 		pendS: map[string]bool{}, pendC: map[string]bool{}, refused: map[string]bool{}, suspect: map[string]string{}, tainted: map[string]bool{},
-		entFault: map[string]string{}, curEnt: map[string]string{}, lastC: map[string]chkDef{}}
+		entFault: map[string]string{}, curEnt: map[string]string{}, lastC: map[string]chkDef{}, everRef: map[string]bool{}}
 	w.cat = newCatalog(sc.Wire)
 	switch sc.Interval {
 	case "long":
@@ -334,10 +335,10 @@ func (w *world) onCall(c *call) {
 		}
 		if c.Fault == "denied" || c.Fault == "acl-not-found" {
 			if c.Class == "register-service" {
-				w.refused["s:"+c.Svc] = true
+				w.refused["s:"+c.Svc], w.everRef["s:"+c.Svc] = true, true
 			}
 			for _, id := range c.Chks {
-				w.refused["c:"+id] = true
+				w.refused["c:"+id], w.everRef["c:"+id] = true, true
 			}
 			w.run.Count("acl_refused_registrations")
 		}
@@ -774,6 +775,16 @@ func (w *world) doSync(s step, faults []faultSpec, phase string) {
 		w.checkConverged(kind, err)
 	}
 	if s.Full {
+		// entries refused by ACLs earlier must have been retried by this full sync
+		v2 := w.cat.view()
+		for k := range w.everRef {
+			_, wantS := w.wantS[k[2:]]
+			_, wantC := w.wantC[k[2:]]
+			if (k[0] == 's' && wantS && v2.Svcs[k[2:]] != nil) || (k[0] == 'c' && wantC && v2.Chks[k[2:]] != nil) {
+				w.run.Count("acl_refused_entries_registered_by_next_fault_free_full_sync")
+			}
+		}
+		w.everRef = map[string]bool{}
 		w.allFaults = nil
 		w.entFault = map[string]string{}
 	}
@@ -1383,7 +1394,7 @@ func variantsFor(rng *core.Rand, base []call, full bool) []variant {
 			}
 		}
 	}
-	limit := core.N(16, 640)
+	limit := core.N(16, 240)
 	if len(pairs) > limit {
 		p := rng.Perm(len(pairs))[:limit]
 		sort.Ints(p)
@@ -1458,14 +1469,15 @@ func caseVariantScenarios() []*scenario {
 
 func TestZZVerifC16(t *testing.T) {
 	run := core.NewRun("C16", "fault_enumeration",
-		"scenarios = PRNG-built sequences of agent-local operations (add/re-add/update/remove service with its checks, add/re-add/remove check, check status change and output churn with CheckUpdateInterval 0 | 1h (deferral) | 2ms (timer fires)), external catalog drift (foreign service/check added, entries removed, each IsSame-compared field altered, node meta / tagged addresses changed) and full/partial syncs, executed on the real agent/local.State against a real state.Store behind the RPCs the agent uses. For each scenario the RPCs of its fault-free target sync are recorded and EVERY call position x 6 failure kinds is replayed from scratch (with and without an immediate partial retry, and as a failure persisting into the following syncs), plus the fallback-read position, plus double faults (quick: 16 sampled position/kind pairs per scenario; thorough: all position pairs x 4x4 kinds, capped at 640). After every local step and every sync attempt the flag oracle runs; after every fault-free sync the deregistration and convergence oracles run; each execution ends with the first fault-free full sync. An execution is non-trivial if at least one injected fault fired and the target sync contained a write RPC; distinct by (scenario, fault plan).")
+		"scenarios = PRNG-built sequences of agent-local operations (add/re-add/update/remove service with its checks, add/re-add/remove check, check status change and output churn with CheckUpdateInterval 0 | 1h (deferral) | 2ms (timer fires)), external catalog drift (foreign service/check added, entries removed, each IsSame-compared field altered, node meta / tagged addresses changed) and full/partial syncs, executed on the real agent/local.State against a real state.Store behind the RPCs the agent uses. For each scenario the RPCs of its fault-free target sync are recorded and EVERY call position x 6 failure kinds is replayed from scratch (with and without an immediate partial retry, and as a failure persisting into the following syncs), plus the fallback-read position, plus double faults (quick: 16 sampled position/kind pairs per scenario; thorough: all position pairs x 4x4 kinds, capped at 240). After every local step and every sync attempt the flag oracle runs; after every fault-free sync the deregistration and convergence oracles run; each execution ends with the first fault-free full sync. An execution is non-trivial if at least one injected fault fired and the target sync contained a write RPC; distinct by (scenario, fault plan).")
 	run.Assume(
 		"the catalog side is the production state.Store driven by EnsureRegistration/DeleteService/DeleteCheck after the same msgpack round trip raft applies; the endpoint's ACL vetting is replaced by injected refusals",
 		"call positions are identified by what the call carries (read:services, register:svc:<id>, deregister:chk:<id>, ...) because the agent walks Go maps: the k-th call differs between executions, the set of positions does not",
 		"an injected \"Unknown service/check\" answer to a deregistration is made true (the entry is removed from the catalog first), as the server only says so when it does not hold the entry",
 		"service tags of a check row and HealthCheck.Type/Interval/Timeout are not compared (derived by the store / never compared by the agent); tags of EnableTagOverride services and consul-prefixed tagged addresses are server-owned",
 		"node-level information (meta, tagged addresses) is drifted but its convergence is only counted, not demanded",
-		"the 1h CheckUpdateInterval never fires during an execution; with 2ms the monitor waits for the timer (watchdog 5s => inconclusive)")
+		"check output is not demanded while the agent holds a pending defer timer for that check (CheckUpdateInterval > 0: the documented output rate limit; the timer marks the check out of sync when it fires). The 1h interval never fires during an execution; with 2ms the monitor waits for the timer to fire (watchdog 5s => inconclusive)",
+		"executions of the two case-variant scenarios depend on Go map iteration order inside the agent (which spelling reaches the catalog last); their counts may differ by a few between runs, the verdict does not")
 	rng := core.NewRand(core.Seed())
 
 	nsc := core.N(150, 3000)
@@ -1515,6 +1527,7 @@ func TestZZVerifC16(t *testing.T) {
 	run.Floor("convergence_checks_passed:partial", core.N(500, 10000))
 	run.Floor("deregistrations_carried_out", core.N(500, 10000))
 	run.Floor("flag_exempt_acl_refused", core.N(100, 2000))
+	run.Floor("acl_refused_entries_registered_by_next_fault_free_full_sync", core.N(100, 2000))
 	run.Floor("drift_ops", core.N(1000, 20000))
 	run.Floor("output_updates_deferred", core.N(100, 2000))
 	run.Floor("defer_timers_fired", core.N(10, 200))
